@@ -1,7 +1,562 @@
-import RbdlProofs.Lemmas.Rot
-/- C06 — property theorems (being filled in) -/
+import RbdlProofs.Lemmas.Loop06
+import RbdlProofs.Lemmas.Ex06
+/-
+  C06 / C05 — velocities and accelerations are time derivatives.
+
+  First-principles side (`Rbdl/Spec/Motion.lean`, `Rbdl/Spec/Mech.lean`): a pose jet is a
+  `Spec.Pose (D2 α)`; `NodeKin.ofPose` extracts `(R, Ṙ, R̈, p, ṗ, p̈)`;
+    `svOfKin k = (Rᵀ ω, Rᵀ ṗ)`,  `saOfKin k = (Rᵀ ω̇, Rᵀ p̈ − (Rᵀ ω) × (Rᵀ ṗ))`,
+  with `[ω]× = Ṙ Rᵀ`, `[ω̇]× = R̈ Rᵀ + Ṙ Ṙᵀ` (`NodeKin.omega`, `NodeKin.omegaDot`);
+  `KinOk k`: `R Rᵀ = 1`, `det R = 1`, `Ṙ Rᵀ + R Ṙᵀ = 0`, `R̈ Rᵀ + 2 Ṙ Ṙᵀ + R R̈ᵀ = 0`.
+  `jointPoseJet m i st qd qdd` is `Spec.jointPose` of the joint *definition* evaluated on the
+  coordinate jets of `Spec.coordJets` (angles: `(cosJ, sinJ)`, linear: `(q, q̇, q̈)`, spherical:
+  `Q̇ = ½ Q ⊗ (ω,0)`, `Q̈ = ½ Q̇ ⊗ (ω,0) + ½ Q ⊗ (ω̇,0)`); `framePoseJet m i` is the constant jet of
+  the joint frame; `bodyPoseJet m st qd qdd i` the world pose jet of body `i`.
+
+  Helper notions (`RbdlProofs/Lemmas/{Motion06,Step06}.lean`): `L06.JointWS m w i` — the
+  construction-time content of the workspace entries of joint `i` that `jcalc` relies on (spelled out
+  per joint kind in the theorems of section 2); `L06.ukBody` — the body of the loop of
+  `updateKinematics` (`updateKinematics_eq_forUp`, by `rfl`); `ModelS.jointUnit`, `JT.hasJcalc` as in C04.
+
+  Findings.
+  * The exact acceleration law is
+      `a(A∘B) = X_B a(A) + a(B) + v(A∘B) ×ₘ v(B)`,
+    which is the code's `a_i = X_λ a_λ + c_J + v_i ×ₘ v_J + S q̈` with `a(joint jet) = S q̈ + c_J`.
+  * `2 ≠ 0` is needed wherever a `KinOk` *hypothesis* has to be turned into `Ṙ = S(ω) R` (the
+    symmetric form `Ṙ Rᵀ + R Ṙᵀ = 0` does not give a zero diagonal in characteristic 2, machine-checked
+    counterexample below) and for the spherical joint (`½`).  The per-joint theorems for all other
+    joint kinds need no such hypothesis.
+  * `DecidableEq α` is not needed.
+-/
 namespace Rbdl.C06
-open Lean.Grind Rbdl
-variable {α : Type} [CommRing α]
-theorem placeholder_rot_one : (M3.one : M3 α).IsRot := M3.isRot_one
+open Lean.Grind Rbdl Rbdl.Spec
+variable {α : Type} [Field α]
+attribute [local instance] L06.Ex.decKinOk
+
+/-! ### 1. composition of pose jets (independent of the joint type) -/
+
+/-- `v(A∘B) = X_B v(A) + v(B)` with `X_B = SpatialTransform(R_Bᵀ, p_B)` -/
+theorem compose_velocity (h2 : (2 : α) ≠ 0) (A B : Pose (D2 α))
+    (hA : KinOk (NodeKin.ofPose A)) (hB : KinOk (NodeKin.ofPose B)) :
+    svOfKin (NodeKin.ofPose (A.comp B))
+      = (⟨(NodeKin.ofPose B).R.transpose, (NodeKin.ofPose B).p⟩ : XT α).apply
+          (svOfKin (NodeKin.ofPose A)) + svOfKin (NodeKin.ofPose B) := by
+  rw [L06.ofPose_comp]
+  exact ((L06.kinOk_bodyForm h2 hA).comp (L06.kinOk_bodyForm h2 hB)).sv
+
+/-- `a(A∘B) = X_B a(A) + a(B) + v(A∘B) ×ₘ v(B)` -/
+theorem compose_acceleration (h2 : (2 : α) ≠ 0) (A B : Pose (D2 α))
+    (hA : KinOk (NodeKin.ofPose A)) (hB : KinOk (NodeKin.ofPose B)) :
+    saOfKin (NodeKin.ofPose (A.comp B))
+      = (⟨(NodeKin.ofPose B).R.transpose, (NodeKin.ofPose B).p⟩ : XT α).apply
+          (saOfKin (NodeKin.ofPose A)) + saOfKin (NodeKin.ofPose B)
+        + crossm (svOfKin (NodeKin.ofPose (A.comp B))) (svOfKin (NodeKin.ofPose B)) := by
+  rw [compose_velocity h2 A B hA hB, L06.ofPose_comp]
+  exact ((L06.kinOk_bodyForm h2 hA).comp (L06.kinOk_bodyForm h2 hB)).sa
+
+/-- the composition of two rotation jets is a rotation jet -/
+theorem compose_kinOk (h2 : (2 : α) ≠ 0) (A B : Pose (D2 α))
+    (hA : KinOk (NodeKin.ofPose A)) (hB : KinOk (NodeKin.ofPose B)) :
+    KinOk (NodeKin.ofPose (A.comp B)) := by
+  rw [L06.ofPose_comp]
+  exact ((L06.kinOk_bodyForm h2 hA).comp (L06.kinOk_bodyForm h2 hB)).kinOk
+
+/-- `2 ≠ 0` cannot be dropped from `compose_velocity`: over `GF(2)` the jet `R = 1`, `Ṙ = diag(1,0,0)`,
+    `R̈ = 0` satisfies `KinOk` (`Ṙ Rᵀ + R Ṙᵀ = 2 Ṙ = 0`) and has `ω = 0`, but moves the point `(1,0,0)`
+    of the child frame with velocity `(1,0,0)` (checked by evaluation) -/
+example : letI := C16.Ex.gf2
+    let A : Pose (D2 (Fin 2)) := ⟨⟨⟨1, 1, 0⟩, 0, 0, 0, 1, 0, 0, 0, 1⟩, V3.zero⟩
+    let B : Pose (D2 (Fin 2)) := ⟨M3.one, ⟨1, 0, 0⟩⟩
+    KinOk (NodeKin.ofPose A) ∧ KinOk (NodeKin.ofPose B) ∧
+    svOfKin (NodeKin.ofPose (A.comp B))
+      ≠ (⟨(NodeKin.ofPose B).R.transpose, (NodeKin.ofPose B).p⟩ : XT (Fin 2)).apply
+          (svOfKin (NodeKin.ofPose A)) + svOfKin (NodeKin.ofPose B) := by decide
+
+/-- a constant pose (all derivatives zero) has zero velocity and acceleration
+    (no rotation hypothesis needed) -/
+theorem const_velocity_acceleration (k : NodeKin α) (h1 : k.Rd = M3.zero) (h2 : k.Rdd = M3.zero)
+    (h3 : k.pd = V3.zero) (h4 : k.pdd = V3.zero) :
+    svOfKin k = SV.zero ∧ saOfKin k = SV.zero := by
+  unfold svOfKin saOfKin NodeKin.omega NodeKin.omegaDot
+  rw [h1, h2, h3, h4]
+  constructor <;> (ext <;> simp only [alg, vee] <;> grind)
+
+example : svOfKin (NodeKin.ofPose (framePose D2.const C16.Ex.M (⟨1, 2, 3⟩ : V3 Rat))) = SV.zero ∧
+    saOfKin (NodeKin.ofPose (framePose D2.const C16.Ex.M (⟨1, 2, 3⟩ : V3 Rat))) = SV.zero :=
+  const_velocity_acceleration _ rfl rfl rfl rfl
+
+/-- frame placements: `framePose` of constants -/
+theorem frame_velocity_acceleration (E : M3 α) (r : V3 α) :
+    svOfKin (NodeKin.ofPose (framePose D2.const E r)) = SV.zero ∧
+    saOfKin (NodeKin.ofPose (framePose D2.const E r)) = SV.zero :=
+  const_velocity_acceleration _ rfl rfl rfl rfl
+
+theorem frame_kinOk (E : M3 α) (r : V3 α) (hE : E.IsRot) :
+    KinOk (NodeKin.ofPose (framePose D2.const E r)) :=
+  (L06.bodyForm_const (k := NodeKin.ofPose (framePose D2.const E r)) hE.transpose
+    rfl rfl rfl rfl).kinOk
+example : KinOk (NodeKin.ofPose (framePose D2.const C16.Ex.M (⟨1, 2, 3⟩ : V3 Rat))) :=
+  frame_kinOk _ _ C16.Ex.M_isRot
+
+/-! ### 2. one theorem per joint kind -/
+
+/-- `JointTypeRevoluteX`: the inactive components of `v_J[i]` are 0, `S[i]` is the axis, `c_J[i] = 0` -/
+theorem joint_motion_revoluteX (m : ModelS α) (w : WS α) (i : Nat) (st : QS α) (qd qdd : VecN α)
+    (h : (m.joint i).jt = .revoluteX) (hdof : (m.joint i).dof = 1)
+    (hcs : st.c (m.joint i).qIndex * st.c (m.joint i).qIndex + st.s (m.joint i).qIndex * st.s (m.joint i).qIndex = 1)
+    (hv : (w.v_J i).w.y = 0 ∧ (w.v_J i).w.z = 0 ∧ (w.v_J i).v = V3.zero)
+    (hS : w.S i = sv6 1 0 0 0 0 0) (hc : w.c_J i = SV.zero) :
+    svOfKin (NodeKin.ofPose (jointPoseJet m i st qd qdd)) = (jcalc m w i st qd).v_J i ∧
+    saOfKin (NodeKin.ofPose (jointPoseJet m i st qd qdd))
+      = WS.Sqdd (jcalc m w i st qd) m i qdd + (jcalc m w i st qd).c_J i ∧
+    KinOk (NodeKin.ofPose (jointPoseJet m i st qd qdd)) :=
+  (L06.jm_revoluteX m w i st qd qdd h hcs
+    (by simp only [L06.JointWS, h]; exact ⟨hdof, hv.1, hv.2.1, hv.2.2, hS, hc⟩)).spec
+example := joint_motion_revoluteX L06.Ex.mRevX (initWS L06.Ex.mRevX) 1 L06.Ex.st L06.Ex.qd L06.Ex.qdd rfl rfl
+  (L06.Ex.cs _) ⟨rfl, rfl, rfl⟩ rfl rfl
+
+/-- `JointTypeRevoluteY`: the inactive components of `v_J[i]` are 0, `S[i]` is the axis, `c_J[i] = 0` -/
+theorem joint_motion_revoluteY (m : ModelS α) (w : WS α) (i : Nat) (st : QS α) (qd qdd : VecN α)
+    (h : (m.joint i).jt = .revoluteY) (hdof : (m.joint i).dof = 1)
+    (hcs : st.c (m.joint i).qIndex * st.c (m.joint i).qIndex + st.s (m.joint i).qIndex * st.s (m.joint i).qIndex = 1)
+    (hv : (w.v_J i).w.x = 0 ∧ (w.v_J i).w.z = 0 ∧ (w.v_J i).v = V3.zero)
+    (hS : w.S i = sv6 0 1 0 0 0 0) (hc : w.c_J i = SV.zero) :
+    svOfKin (NodeKin.ofPose (jointPoseJet m i st qd qdd)) = (jcalc m w i st qd).v_J i ∧
+    saOfKin (NodeKin.ofPose (jointPoseJet m i st qd qdd))
+      = WS.Sqdd (jcalc m w i st qd) m i qdd + (jcalc m w i st qd).c_J i ∧
+    KinOk (NodeKin.ofPose (jointPoseJet m i st qd qdd)) :=
+  (L06.jm_revoluteY m w i st qd qdd h hcs
+    (by simp only [L06.JointWS, h]; exact ⟨hdof, hv.1, hv.2.1, hv.2.2, hS, hc⟩)).spec
+example := joint_motion_revoluteY L06.Ex.mRevY (initWS L06.Ex.mRevY) 1 L06.Ex.st L06.Ex.qd L06.Ex.qdd rfl rfl
+  (L06.Ex.cs _) ⟨rfl, rfl, rfl⟩ rfl rfl
+
+/-- `JointTypeRevoluteZ`: the inactive components of `v_J[i]` are 0, `S[i]` is the axis, `c_J[i] = 0` -/
+theorem joint_motion_revoluteZ (m : ModelS α) (w : WS α) (i : Nat) (st : QS α) (qd qdd : VecN α)
+    (h : (m.joint i).jt = .revoluteZ) (hdof : (m.joint i).dof = 1)
+    (hcs : st.c (m.joint i).qIndex * st.c (m.joint i).qIndex + st.s (m.joint i).qIndex * st.s (m.joint i).qIndex = 1)
+    (hv : (w.v_J i).w.x = 0 ∧ (w.v_J i).w.y = 0 ∧ (w.v_J i).v = V3.zero)
+    (hS : w.S i = sv6 0 0 1 0 0 0) (hc : w.c_J i = SV.zero) :
+    svOfKin (NodeKin.ofPose (jointPoseJet m i st qd qdd)) = (jcalc m w i st qd).v_J i ∧
+    saOfKin (NodeKin.ofPose (jointPoseJet m i st qd qdd))
+      = WS.Sqdd (jcalc m w i st qd) m i qdd + (jcalc m w i st qd).c_J i ∧
+    KinOk (NodeKin.ofPose (jointPoseJet m i st qd qdd)) :=
+  (L06.jm_revoluteZ m w i st qd qdd h hcs
+    (by simp only [L06.JointWS, h]; exact ⟨hdof, hv.1, hv.2.1, hv.2.2, hS, hc⟩)).spec
+example := joint_motion_revoluteZ L06.Ex.mRevZ (initWS L06.Ex.mRevZ) 1 L06.Ex.st L06.Ex.qd L06.Ex.qdd rfl rfl
+  (L06.Ex.cs _) ⟨rfl, rfl, rfl⟩ rfl rfl
+
+/-- `JointTypeRevolute` about a unit axis: `S[i]` is the (purely angular) axis, `c_J[i] = 0` -/
+theorem joint_motion_revolute (m : ModelS α) (w : WS α) (i : Nat) (st : QS α) (qd qdd : VecN α)
+    (h : (m.joint i).jt = .revolute) (hdof : (m.joint i).dof = 1)
+    (hcs : st.c (m.joint i).qIndex * st.c (m.joint i).qIndex + st.s (m.joint i).qIndex * st.s (m.joint i).qIndex = 1)
+    (hax : ((m.joint i).axes.headD SV.zero).w.nrm2 = 1)
+    (hS : w.S i = ⟨((m.joint i).axes.headD SV.zero).w, V3.zero⟩) (hc : w.c_J i = SV.zero) :
+    svOfKin (NodeKin.ofPose (jointPoseJet m i st qd qdd)) = (jcalc m w i st qd).v_J i ∧
+    saOfKin (NodeKin.ofPose (jointPoseJet m i st qd qdd))
+      = WS.Sqdd (jcalc m w i st qd) m i qdd + (jcalc m w i st qd).c_J i ∧
+    KinOk (NodeKin.ofPose (jointPoseJet m i st qd qdd)) :=
+  (L06.jm_revolute m w i st qd qdd h hcs hax
+    (by simp only [L06.JointWS, h]; exact ⟨hdof, hS, hc⟩)).spec
+example := joint_motion_revolute L06.Ex.mRev (initWS L06.Ex.mRev) 1 L06.Ex.st L06.Ex.qd L06.Ex.qdd rfl rfl
+  (L06.Ex.cs _) C16.Ex.ax_unit rfl rfl
+
+/-- `JointTypePrismatic` (any axis): `S[i]` is the (purely linear) axis, `c_J[i] = 0` -/
+theorem joint_motion_prismatic (m : ModelS α) (w : WS α) (i : Nat) (st : QS α) (qd qdd : VecN α)
+    (h : (m.joint i).jt = .prismatic) (hdof : (m.joint i).dof = 1)
+    (hS : w.S i = ⟨V3.zero, ((m.joint i).axes.headD SV.zero).v⟩) (hc : w.c_J i = SV.zero) :
+    svOfKin (NodeKin.ofPose (jointPoseJet m i st qd qdd)) = (jcalc m w i st qd).v_J i ∧
+    saOfKin (NodeKin.ofPose (jointPoseJet m i st qd qdd))
+      = WS.Sqdd (jcalc m w i st qd) m i qdd + (jcalc m w i st qd).c_J i ∧
+    KinOk (NodeKin.ofPose (jointPoseJet m i st qd qdd)) :=
+  (L06.jm_prismatic m w i st qd qdd h
+    (by simp only [L06.JointWS, h]; exact ⟨hdof, hS, hc⟩)).spec
+example := joint_motion_prismatic L06.Ex.mPris (initWS L06.Ex.mPris) 1 L06.Ex.st L06.Ex.qd L06.Ex.qdd rfl rfl
+  rfl rfl
+
+/-- `JointTypeHelical` (unit rotation axis); `S[i]` and `c_J[i]` are written by `jcalc` -/
+theorem joint_motion_helical (m : ModelS α) (w : WS α) (i : Nat) (st : QS α) (qd qdd : VecN α)
+    (h : (m.joint i).jt = .helical) (hdof : (m.joint i).dof = 1)
+    (hcs : st.c (m.joint i).qIndex * st.c (m.joint i).qIndex + st.s (m.joint i).qIndex * st.s (m.joint i).qIndex = 1)
+    (hax : ((m.joint i).axes.headD SV.zero).w.nrm2 = 1) :
+    svOfKin (NodeKin.ofPose (jointPoseJet m i st qd qdd)) = (jcalc m w i st qd).v_J i ∧
+    saOfKin (NodeKin.ofPose (jointPoseJet m i st qd qdd))
+      = WS.Sqdd (jcalc m w i st qd) m i qdd + (jcalc m w i st qd).c_J i ∧
+    KinOk (NodeKin.ofPose (jointPoseJet m i st qd qdd)) :=
+  (L06.jm_helical m w i st qd qdd h hcs hax
+    (by simp only [L06.JointWS, h]; exact hdof)).spec
+example := joint_motion_helical L06.Ex.mHel (initWS L06.Ex.mHel) 1 L06.Ex.st L06.Ex.qd L06.Ex.qdd rfl rfl
+  (L06.Ex.cs _) C16.Ex.ax_unit
+
+/-- `JointTypeSpherical`: unit quaternion, quaternion jet `Q̇ = ½ Q ⊗ (ω,0)` etc. as in `Spec.coordJets`;
+    `c_J[i] = 0`, the entries of `multdof3_S[i]` off the angular diagonal are 0; needs `2 ≠ 0` -/
+theorem joint_motion_spherical (m : ModelS α) (w : WS α) (i : Nat) (st : QS α) (qd qdd : VecN α)
+    (h2 : (2 : α) ≠ 0) (h : (m.joint i).jt = .spherical) (hdof : (m.joint i).dof = 3)
+    (hw3 : (m.joint i).qIndex + 2 < m.w3 i) (hQ : (getQuaternion m i st.q).nrm2 = 1)
+    (hc : w.c_J i = SV.zero)
+    (hS3 : L06.vZero (w.S3 i) ∧ (w.S3 i).c0.w.y = 0 ∧ (w.S3 i).c0.w.z = 0 ∧ (w.S3 i).c1.w.x = 0 ∧
+          (w.S3 i).c1.w.z = 0 ∧ (w.S3 i).c2.w.x = 0 ∧ (w.S3 i).c2.w.y = 0) :
+    svOfKin (NodeKin.ofPose (jointPoseJet m i st qd qdd)) = (jcalc m w i st qd).v_J i ∧
+    saOfKin (NodeKin.ofPose (jointPoseJet m i st qd qdd))
+      = WS.Sqdd (jcalc m w i st qd) m i qdd + (jcalc m w i st qd).c_J i ∧
+    KinOk (NodeKin.ofPose (jointPoseJet m i st qd qdd)) :=
+  (L06.jm_spherical m w i st qd qdd h2 h hw3 hQ
+    (by simp only [L06.JointWS, h]; exact ⟨hdof, hc, hS3⟩)).spec
+example := joint_motion_spherical L06.Ex.mSph (initWS L06.Ex.mSph) 1 L06.Ex.st L06.Ex.qd L06.Ex.qdd L06.Ex.two_ne rfl
+  rfl (by decide) C16.Ex.p_unit rfl ⟨⟨rfl, rfl, rfl⟩, rfl, rfl, rfl, rfl, rfl, rfl⟩
+
+/-- `JointTypeEulerZYX`: the entries of `multdof3_S[i]` that `jcalc` does not write are 0 -/
+theorem joint_motion_eulerZYX (m : ModelS α) (w : WS α) (i : Nat) (st : QS α) (qd qdd : VecN α)
+    (h : (m.joint i).jt = .eulerZYX) (hdof : (m.joint i).dof = 3)
+    (h0 : st.c (m.joint i).qIndex * st.c (m.joint i).qIndex + st.s (m.joint i).qIndex * st.s (m.joint i).qIndex = 1)
+    (h1 : st.c ((m.joint i).qIndex + 1) * st.c ((m.joint i).qIndex + 1) + st.s ((m.joint i).qIndex + 1) * st.s ((m.joint i).qIndex + 1) = 1)
+    (h2 : st.c ((m.joint i).qIndex + 2) * st.c ((m.joint i).qIndex + 2) + st.s ((m.joint i).qIndex + 2) * st.s ((m.joint i).qIndex + 2) = 1)
+    (hS3 : L06.vZero (w.S3 i) ∧ (w.S3 i).c1.w.x = 0 ∧ (w.S3 i).c2.w.y = 0 ∧ (w.S3 i).c2.w.z = 0) :
+    svOfKin (NodeKin.ofPose (jointPoseJet m i st qd qdd)) = (jcalc m w i st qd).v_J i ∧
+    saOfKin (NodeKin.ofPose (jointPoseJet m i st qd qdd))
+      = WS.Sqdd (jcalc m w i st qd) m i qdd + (jcalc m w i st qd).c_J i ∧
+    KinOk (NodeKin.ofPose (jointPoseJet m i st qd qdd)) :=
+  (L06.jm_eulerZYX m w i st qd qdd h h0 h1 h2
+    (by simp only [L06.JointWS, h]; exact ⟨hdof, hS3⟩)).spec
+example := joint_motion_eulerZYX L06.Ex.mZYX (initWS L06.Ex.mZYX) 1 L06.Ex.st L06.Ex.qd L06.Ex.qdd rfl rfl
+  (L06.Ex.cs _) (L06.Ex.cs _) (L06.Ex.cs _) ⟨⟨rfl, rfl, rfl⟩, rfl, rfl, rfl⟩
+
+/-- `JointTypeEulerXYZ`: the entries of `multdof3_S[i]` that `jcalc` does not write are 0 -/
+theorem joint_motion_eulerXYZ (m : ModelS α) (w : WS α) (i : Nat) (st : QS α) (qd qdd : VecN α)
+    (h : (m.joint i).jt = .eulerXYZ) (hdof : (m.joint i).dof = 3)
+    (h0 : st.c (m.joint i).qIndex * st.c (m.joint i).qIndex + st.s (m.joint i).qIndex * st.s (m.joint i).qIndex = 1)
+    (h1 : st.c ((m.joint i).qIndex + 1) * st.c ((m.joint i).qIndex + 1) + st.s ((m.joint i).qIndex + 1) * st.s ((m.joint i).qIndex + 1) = 1)
+    (h2 : st.c ((m.joint i).qIndex + 2) * st.c ((m.joint i).qIndex + 2) + st.s ((m.joint i).qIndex + 2) * st.s ((m.joint i).qIndex + 2) = 1)
+    (hS3 : L06.vZero (w.S3 i) ∧ (w.S3 i).c1.w.z = 0 ∧ (w.S3 i).c2.w.x = 0 ∧ (w.S3 i).c2.w.y = 0) :
+    svOfKin (NodeKin.ofPose (jointPoseJet m i st qd qdd)) = (jcalc m w i st qd).v_J i ∧
+    saOfKin (NodeKin.ofPose (jointPoseJet m i st qd qdd))
+      = WS.Sqdd (jcalc m w i st qd) m i qdd + (jcalc m w i st qd).c_J i ∧
+    KinOk (NodeKin.ofPose (jointPoseJet m i st qd qdd)) :=
+  (L06.jm_eulerXYZ m w i st qd qdd h h0 h1 h2
+    (by simp only [L06.JointWS, h]; exact ⟨hdof, hS3⟩)).spec
+example := joint_motion_eulerXYZ L06.Ex.mXYZ (initWS L06.Ex.mXYZ) 1 L06.Ex.st L06.Ex.qd L06.Ex.qdd rfl rfl
+  (L06.Ex.cs _) (L06.Ex.cs _) (L06.Ex.cs _) ⟨⟨rfl, rfl, rfl⟩, rfl, rfl, rfl⟩
+
+/-- `JointTypeEulerYXZ`: the entries of `multdof3_S[i]` that `jcalc` does not write are 0 -/
+theorem joint_motion_eulerYXZ (m : ModelS α) (w : WS α) (i : Nat) (st : QS α) (qd qdd : VecN α)
+    (h : (m.joint i).jt = .eulerYXZ) (hdof : (m.joint i).dof = 3)
+    (h0 : st.c (m.joint i).qIndex * st.c (m.joint i).qIndex + st.s (m.joint i).qIndex * st.s (m.joint i).qIndex = 1)
+    (h1 : st.c ((m.joint i).qIndex + 1) * st.c ((m.joint i).qIndex + 1) + st.s ((m.joint i).qIndex + 1) * st.s ((m.joint i).qIndex + 1) = 1)
+    (h2 : st.c ((m.joint i).qIndex + 2) * st.c ((m.joint i).qIndex + 2) + st.s ((m.joint i).qIndex + 2) * st.s ((m.joint i).qIndex + 2) = 1)
+    (hS3 : L06.vZero (w.S3 i) ∧ (w.S3 i).c1.w.z = 0 ∧ (w.S3 i).c2.w.x = 0 ∧ (w.S3 i).c2.w.y = 0) :
+    svOfKin (NodeKin.ofPose (jointPoseJet m i st qd qdd)) = (jcalc m w i st qd).v_J i ∧
+    saOfKin (NodeKin.ofPose (jointPoseJet m i st qd qdd))
+      = WS.Sqdd (jcalc m w i st qd) m i qdd + (jcalc m w i st qd).c_J i ∧
+    KinOk (NodeKin.ofPose (jointPoseJet m i st qd qdd)) :=
+  (L06.jm_eulerYXZ m w i st qd qdd h h0 h1 h2
+    (by simp only [L06.JointWS, h]; exact ⟨hdof, hS3⟩)).spec
+example := joint_motion_eulerYXZ L06.Ex.mYXZ (initWS L06.Ex.mYXZ) 1 L06.Ex.st L06.Ex.qd L06.Ex.qdd rfl rfl
+  (L06.Ex.cs _) (L06.Ex.cs _) (L06.Ex.cs _) ⟨⟨rfl, rfl, rfl⟩, rfl, rfl, rfl⟩
+
+/-- `JointTypeEulerZXY`: the entries of `multdof3_S[i]` that `jcalc` does not write are 0 -/
+theorem joint_motion_eulerZXY (m : ModelS α) (w : WS α) (i : Nat) (st : QS α) (qd qdd : VecN α)
+    (h : (m.joint i).jt = .eulerZXY) (hdof : (m.joint i).dof = 3)
+    (h0 : st.c (m.joint i).qIndex * st.c (m.joint i).qIndex + st.s (m.joint i).qIndex * st.s (m.joint i).qIndex = 1)
+    (h1 : st.c ((m.joint i).qIndex + 1) * st.c ((m.joint i).qIndex + 1) + st.s ((m.joint i).qIndex + 1) * st.s ((m.joint i).qIndex + 1) = 1)
+    (h2 : st.c ((m.joint i).qIndex + 2) * st.c ((m.joint i).qIndex + 2) + st.s ((m.joint i).qIndex + 2) * st.s ((m.joint i).qIndex + 2) = 1)
+    (hS3 : L06.vZero (w.S3 i) ∧ (w.S3 i).c1.w.y = 0 ∧ (w.S3 i).c2.w.x = 0 ∧ (w.S3 i).c2.w.z = 0) :
+    svOfKin (NodeKin.ofPose (jointPoseJet m i st qd qdd)) = (jcalc m w i st qd).v_J i ∧
+    saOfKin (NodeKin.ofPose (jointPoseJet m i st qd qdd))
+      = WS.Sqdd (jcalc m w i st qd) m i qdd + (jcalc m w i st qd).c_J i ∧
+    KinOk (NodeKin.ofPose (jointPoseJet m i st qd qdd)) :=
+  (L06.jm_eulerZXY m w i st qd qdd h h0 h1 h2
+    (by simp only [L06.JointWS, h]; exact ⟨hdof, hS3⟩)).spec
+example := joint_motion_eulerZXY L06.Ex.mZXY (initWS L06.Ex.mZXY) 1 L06.Ex.st L06.Ex.qd L06.Ex.qdd rfl rfl
+  (L06.Ex.cs _) (L06.Ex.cs _) (L06.Ex.cs _) ⟨⟨rfl, rfl, rfl⟩, rfl, rfl, rfl⟩
+
+/-- `JointTypeTranslationXYZ`: the entries of `multdof3_S[i]` outside the linear diagonal are 0 -/
+theorem joint_motion_translationXYZ (m : ModelS α) (w : WS α) (i : Nat) (st : QS α) (qd qdd : VecN α)
+    (h : (m.joint i).jt = .translationXYZ) (hdof : (m.joint i).dof = 3)
+    (hS3 : (w.S3 i).c0.w = V3.zero ∧ (w.S3 i).c1.w = V3.zero ∧ (w.S3 i).c2.w = V3.zero ∧
+          (w.S3 i).c0.v.y = 0 ∧ (w.S3 i).c0.v.z = 0 ∧ (w.S3 i).c1.v.x = 0 ∧ (w.S3 i).c1.v.z = 0 ∧
+          (w.S3 i).c2.v.x = 0 ∧ (w.S3 i).c2.v.y = 0) :
+    svOfKin (NodeKin.ofPose (jointPoseJet m i st qd qdd)) = (jcalc m w i st qd).v_J i ∧
+    saOfKin (NodeKin.ofPose (jointPoseJet m i st qd qdd))
+      = WS.Sqdd (jcalc m w i st qd) m i qdd + (jcalc m w i st qd).c_J i ∧
+    KinOk (NodeKin.ofPose (jointPoseJet m i st qd qdd)) :=
+  (L06.jm_translationXYZ m w i st qd qdd h
+    (by simp only [L06.JointWS, h]; exact ⟨hdof, hS3⟩)).spec
+example := joint_motion_translationXYZ L06.Ex.mTrans (initWS L06.Ex.mTrans) 1 L06.Ex.st L06.Ex.qd L06.Ex.qdd rfl rfl
+  ⟨rfl, rfl, rfl, rfl, rfl, rfl, rfl, rfl, rfl⟩
+
+/-- custom joint re-implementing RevoluteX (everything it reads is written by `jcalc`) -/
+theorem joint_motion_custom_revX (m : ModelS α) (w : WS α) (i : Nat) (st : QS α) (qd qdd : VecN α)
+    (h : (m.joint i).jt = .custom) (hk : m.custom (m.joint i).customIdx = .revX)
+    (hcs : st.c (m.joint i).qIndex * st.c (m.joint i).qIndex + st.s (m.joint i).qIndex * st.s (m.joint i).qIndex = 1) :
+    svOfKin (NodeKin.ofPose (jointPoseJet m i st qd qdd)) = (jcalc m w i st qd).v_J i ∧
+    saOfKin (NodeKin.ofPose (jointPoseJet m i st qd qdd))
+      = WS.Sqdd (jcalc m w i st qd) m i qdd + (jcalc m w i st qd).c_J i ∧
+    KinOk (NodeKin.ofPose (jointPoseJet m i st qd qdd)) :=
+  (L06.jm_custom_revX m w i st qd qdd h hk hcs).spec
+example := joint_motion_custom_revX L06.Ex.mCRevX (initWS L06.Ex.mCRevX) 1 L06.Ex.st L06.Ex.qd L06.Ex.qdd
+  rfl rfl (L06.Ex.cs _)
+
+/-- custom joint re-implementing EulerZYX -/
+theorem joint_motion_custom_eulerZYX (m : ModelS α) (w : WS α) (i : Nat) (st : QS α) (qd qdd : VecN α)
+    (h : (m.joint i).jt = .custom) (hk : m.custom (m.joint i).customIdx = .eulerZYX)
+    (h0 : st.c (m.joint i).qIndex * st.c (m.joint i).qIndex + st.s (m.joint i).qIndex * st.s (m.joint i).qIndex = 1)
+    (h1 : st.c ((m.joint i).qIndex + 1) * st.c ((m.joint i).qIndex + 1) + st.s ((m.joint i).qIndex + 1) * st.s ((m.joint i).qIndex + 1) = 1)
+    (h2 : st.c ((m.joint i).qIndex + 2) * st.c ((m.joint i).qIndex + 2) + st.s ((m.joint i).qIndex + 2) * st.s ((m.joint i).qIndex + 2) = 1) :
+    svOfKin (NodeKin.ofPose (jointPoseJet m i st qd qdd)) = (jcalc m w i st qd).v_J i ∧
+    saOfKin (NodeKin.ofPose (jointPoseJet m i st qd qdd))
+      = WS.Sqdd (jcalc m w i st qd) m i qdd + (jcalc m w i st qd).c_J i ∧
+    KinOk (NodeKin.ofPose (jointPoseJet m i st qd qdd)) :=
+  (L06.jm_custom_eulerZYX m w i st qd qdd h hk h0 h1 h2).spec
+example := joint_motion_custom_eulerZYX L06.Ex.mCZYX (initWS L06.Ex.mCZYX) 1 L06.Ex.st L06.Ex.qd
+  L06.Ex.qdd rfl rfl (L06.Ex.cs _) (L06.Ex.cs _) (L06.Ex.cs _)
+
+/-- custom cylindrical joint (rotation about and translation along z) -/
+theorem joint_motion_custom_cyl (m : ModelS α) (w : WS α) (i : Nat) (st : QS α) (qd qdd : VecN α)
+    (h : (m.joint i).jt = .custom) (hk : m.custom (m.joint i).customIdx = .cyl)
+    (hcs : st.c (m.joint i).qIndex * st.c (m.joint i).qIndex + st.s (m.joint i).qIndex * st.s (m.joint i).qIndex = 1) :
+    svOfKin (NodeKin.ofPose (jointPoseJet m i st qd qdd)) = (jcalc m w i st qd).v_J i ∧
+    saOfKin (NodeKin.ofPose (jointPoseJet m i st qd qdd))
+      = WS.Sqdd (jcalc m w i st qd) m i qdd + (jcalc m w i st qd).c_J i ∧
+    KinOk (NodeKin.ofPose (jointPoseJet m i st qd qdd)) :=
+  (L06.jm_custom_cyl m w i st qd qdd h hk hcs).spec
+example := joint_motion_custom_cyl L06.Ex.mCCyl (initWS L06.Ex.mCCyl) 1 L06.Ex.st L06.Ex.qd L06.Ex.qdd
+  rfl rfl (L06.Ex.cs _)
+
+/-- the workspace hypotheses above are the construction-time invariant: they hold for the workspace
+    `initWS m` the construction code leaves, for every joint declared by the joint constructors
+    (`L06.JointDecl`: declared DoF count; unit axis for revoluteX/Y/Z; purely angular / linear first
+    axis for revolute / prismatic) -/
+theorem jointWS_after_construction (m : ModelS α) (i : Nat) (hi : i ≠ 0)
+    (hd : L06.JointDecl (m.joint i)) : L06.JointWS m (initWS m) i :=
+  L06.jointWS_initWS m i hi hd
+example := jointWS_after_construction C04.Ex.m 2 (by decide) (by change _ ∧ _; exact ⟨rfl, rfl⟩)
+
+/-- all joint kinds handled by `jcalc` at once -/
+theorem joint_motion (m : ModelS α) (w : WS α) (i : Nat) (st : QS α) (qd qdd : VecN α)
+    (h2 : (2 : α) ≠ 0) (hj : (m.joint i).jt.hasJcalc = true) (hu : m.jointUnit i st)
+    (hws : L06.JointWS m w i)
+    (hw3 : (m.joint i).jt = .spherical → (m.joint i).qIndex + 2 < m.w3 i) :
+    svOfKin (NodeKin.ofPose (jointPoseJet m i st qd qdd)) = (jcalc m w i st qd).v_J i ∧
+    saOfKin (NodeKin.ofPose (jointPoseJet m i st qd qdd))
+      = WS.Sqdd (jcalc m w i st qd) m i qdd + (jcalc m w i st qd).c_J i ∧
+    KinOk (NodeKin.ofPose (jointPoseJet m i st qd qdd)) :=
+  (L06.jointMotion m w i st qd qdd h2 hj hu hws hw3).spec
+example := joint_motion C04.Ex.m L06.Ex.w 3 L06.Ex.st L06.Ex.qd L06.Ex.qdd L06.Ex.two_ne rfl
+  (C04.Ex.m_unit 3 (by decide) (by decide)) (L06.Ex.m_ws 3 (by decide) (by decide))
+  (L06.Ex.m_w3 3 (by decide) (by decide))
+
+/-! ### 1'. the composition laws on concrete joint jets -/
+
+example := compose_velocity L06.Ex.two_ne (jointPoseJet C04.Ex.m 2 L06.Ex.st L06.Ex.qd L06.Ex.qdd)
+  (jointPoseJet C04.Ex.m 3 L06.Ex.st L06.Ex.qd L06.Ex.qdd)
+  (joint_motion C04.Ex.m L06.Ex.w 2 L06.Ex.st L06.Ex.qd L06.Ex.qdd L06.Ex.two_ne rfl
+    (C04.Ex.m_unit 2 (by decide) (by decide)) (L06.Ex.m_ws 2 (by decide) (by decide))
+    (L06.Ex.m_w3 2 (by decide) (by decide))).2.2
+  (joint_motion C04.Ex.m L06.Ex.w 3 L06.Ex.st L06.Ex.qd L06.Ex.qdd L06.Ex.two_ne rfl
+    (C04.Ex.m_unit 3 (by decide) (by decide)) (L06.Ex.m_ws 3 (by decide) (by decide))
+    (L06.Ex.m_w3 3 (by decide) (by decide))).2.2
+example := compose_acceleration L06.Ex.two_ne (jointPoseJet C04.Ex.m 2 L06.Ex.st L06.Ex.qd L06.Ex.qdd)
+  (jointPoseJet C04.Ex.m 3 L06.Ex.st L06.Ex.qd L06.Ex.qdd)
+  (joint_motion C04.Ex.m L06.Ex.w 2 L06.Ex.st L06.Ex.qd L06.Ex.qdd L06.Ex.two_ne rfl
+    (C04.Ex.m_unit 2 (by decide) (by decide)) (L06.Ex.m_ws 2 (by decide) (by decide))
+    (L06.Ex.m_w3 2 (by decide) (by decide))).2.2
+  (joint_motion C04.Ex.m L06.Ex.w 3 L06.Ex.st L06.Ex.qd L06.Ex.qdd L06.Ex.two_ne rfl
+    (C04.Ex.m_unit 3 (by decide) (by decide)) (L06.Ex.m_ws 3 (by decide) (by decide))
+    (L06.Ex.m_w3 3 (by decide) (by decide))).2.2
+example := compose_kinOk L06.Ex.two_ne (jointPoseJet C04.Ex.m 2 L06.Ex.st L06.Ex.qd L06.Ex.qdd)
+  (jointPoseJet C04.Ex.m 3 L06.Ex.st L06.Ex.qd L06.Ex.qdd)
+  (joint_motion C04.Ex.m L06.Ex.w 2 L06.Ex.st L06.Ex.qd L06.Ex.qdd L06.Ex.two_ne rfl
+    (C04.Ex.m_unit 2 (by decide) (by decide)) (L06.Ex.m_ws 2 (by decide) (by decide))
+    (L06.Ex.m_w3 2 (by decide) (by decide))).2.2
+  (joint_motion C04.Ex.m L06.Ex.w 3 L06.Ex.st L06.Ex.qd L06.Ex.qdd L06.Ex.two_ne rfl
+    (C04.Ex.m_unit 3 (by decide) (by decide)) (L06.Ex.m_ws 3 (by decide) (by decide))
+    (L06.Ex.m_w3 3 (by decide) (by decide))).2.2
+
+/-! ### 3. one step of the `UpdateKinematics` loop -/
+
+/-- `L06.ukBody` is the body of the loop of `updateKinematics` -/
+theorem updateKinematics_eq_forUp (m : ModelS α) (w : WS α) (st : QS α) (qd qdd : VecN α) :
+    updateKinematics m w st qd qdd
+      = forUp (m.nBodies - 1) 1 (L06.ukBody m st qd qdd) { w with a := upd w.a 0 SV.zero } := rfl
+
+/-- If `(v[λ], a[λ])` are the spatial velocity / acceleration of the parent's pose jet `Pl` (for
+    `λ = 0` the code takes the velocity of the base to be 0), iteration `i` writes those of the
+    child's pose jet `Pl ∘ frame_i ∘ joint_i` into `(v[i], a[i])`. -/
+theorem step_velocity_acceleration (m : ModelS α) (w : WS α) (i : Nat) (st : QS α)
+    (qd qdd : VecN α) (h2 : (2 : α) ≠ 0) (hj : (m.joint i).jt.hasJcalc = true)
+    (hE : (m.XT_ i).E.IsRot) (hu : m.jointUnit i st) (hws : L06.JointWS m w i)
+    (hw3 : (m.joint i).jt = .spherical → (m.joint i).qIndex + 2 < m.w3 i)
+    (Pl : Pose (D2 α)) (hK : KinOk (NodeKin.ofPose Pl))
+    (hv : (if m.lam i ≠ 0 then w.v (m.lam i) else SV.zero) = svOfKin (NodeKin.ofPose Pl))
+    (ha : w.a (m.lam i) = saOfKin (NodeKin.ofPose Pl)) :
+    (L06.ukBody m st qd qdd i w).v i
+      = svOfKin (NodeKin.ofPose
+          (Pl.comp ((framePoseJet m i).comp (jointPoseJet m i st qd qdd)))) ∧
+    (L06.ukBody m st qd qdd i w).a i
+      = saOfKin (NodeKin.ofPose
+          (Pl.comp ((framePoseJet m i).comp (jointPoseJet m i st qd qdd)))) ∧
+    KinOk (NodeKin.ofPose (Pl.comp ((framePoseJet m i).comp (jointPoseJet m i st qd qdd)))) :=
+  (L06.step_bodyForm m w i st qd qdd hj hE (L06.jointMotion m w i st qd qdd h2 hj hu hws hw3) Pl
+    (L06.bodyForm_of_kinOk h2 hK hv ha)).spec
+/-- body 1 of `C04.Ex.m` (revoluteZ on the base, `λ = 0`, base pose = identity) -/
+example := step_velocity_acceleration C04.Ex.m L06.Ex.w 1 L06.Ex.st L06.Ex.qd L06.Ex.qdd L06.Ex.two_ne rfl
+  (C04.Ex.m_frames 1 (by decide) (by decide)) (C04.Ex.m_unit 1 (by decide) (by decide))
+  (L06.Ex.m_ws 1 (by decide) (by decide)) (L06.Ex.m_w3 1 (by decide) (by decide)) Pose.id
+  L06.bf_poseId.kinOk L06.bf_poseId.sv.symm L06.bf_poseId.sa.symm
+
+/-! ### 3'. the whole loop -/
+
+/-- Let `P` be any table of pose jets satisfying the forward-kinematics recursion `P 0 = id`,
+    `P i = P (λ i) ∘ frame_i ∘ joint_i`.  After `UpdateKinematics (Q, QDot, QDDot)` every `v[i]`, `a[i]`
+    (`1 ≤ i < nBodies`) is the spatial velocity / acceleration of `P i`, i.e. a time derivative. -/
+theorem updateKinematics_velocity_acceleration (m : ModelS α) (w : WS α) (st : QS α)
+    (qd qdd : VecN α) (h2 : (2 : α) ≠ 0)
+    (htree : ∀ i, 1 ≤ i → i < m.nBodies → m.lam i < i)
+    (hjc : ∀ i, 1 ≤ i → i < m.nBodies → (m.joint i).jt.hasJcalc = true)
+    (hframe : ∀ i, 1 ≤ i → i < m.nBodies → (m.XT_ i).E.IsRot)
+    (hunit : ∀ i, 1 ≤ i → i < m.nBodies → m.jointUnit i st)
+    (hws : ∀ i, 1 ≤ i → i < m.nBodies → L06.JointWS m w i)
+    (hw3 : ∀ i, 1 ≤ i → i < m.nBodies → (m.joint i).jt = .spherical →
+      (m.joint i).qIndex + 2 < m.w3 i)
+    (P : Nat → Pose (D2 α)) (hP0 : P 0 = Pose.id)
+    (hP : ∀ i, 1 ≤ i → i < m.nBodies →
+      P i = (P (m.lam i)).comp ((framePoseJet m i).comp (jointPoseJet m i st qd qdd))) :
+    ∀ i, 1 ≤ i → i < m.nBodies →
+      (updateKinematics m w st qd qdd).v i = svOfKin (NodeKin.ofPose (P i)) ∧
+      (updateKinematics m w st qd qdd).a i = saOfKin (NodeKin.ofPose (P i)) ∧
+      KinOk (NodeKin.ofPose (P i)) :=
+  fun i h1 hi =>
+    (L06.uk_bodyForm m w st qd qdd h2 htree hjc hframe hunit hws hw3 P hP0 hP i h1 hi).spec
+
+/-- such a table exists: `bodyPoseJet` -/
+theorem bodyPoseJet_recursion (m : ModelS α) (st : QS α) (qd qdd : VecN α)
+    (htree : ∀ i, 1 ≤ i → i < m.nBodies → m.lam i < i) :
+    bodyPoseJet m st qd qdd 0 = Pose.id ∧
+    ∀ i, 1 ≤ i → i < m.nBodies →
+      bodyPoseJet m st qd qdd i = (bodyPoseJet m st qd qdd (m.lam i)).comp
+        ((framePoseJet m i).comp (jointPoseJet m i st qd qdd)) :=
+  ⟨rfl, L06.bodyPoseJet_step m st qd qdd htree⟩
+example := bodyPoseJet_recursion C04.Ex.m L06.Ex.st L06.Ex.qd L06.Ex.qdd C04.Ex.m_tree
+
+/-- the branched tree `C04.Ex.m` (revoluteZ, revolute, spherical, custom cylindrical) -/
+example := updateKinematics_velocity_acceleration C04.Ex.m L06.Ex.w L06.Ex.st L06.Ex.qd L06.Ex.qdd L06.Ex.two_ne
+  C04.Ex.m_tree C04.Ex.m_hasJcalc C04.Ex.m_frames C04.Ex.m_unit L06.Ex.m_ws L06.Ex.m_w3
+  (bodyPoseJet C04.Ex.m L06.Ex.st L06.Ex.qd L06.Ex.qdd) rfl
+  (bodyPoseJet_recursion C04.Ex.m L06.Ex.st L06.Ex.qd L06.Ex.qdd C04.Ex.m_tree).2
+
+/-- `X_base[i]` after the loop is `SpatialTransform(Rᵀ, p)` of the value part `(R, p)` of `P i`
+    (a polynomial identity: no rotation / unit hypotheses) -/
+theorem updateKinematics_X_base (m : ModelS α) (w : WS α) (st : QS α) (qd qdd : VecN α)
+    (htree : ∀ i, 1 ≤ i → i < m.nBodies → m.lam i < i)
+    (hjc : ∀ i, 1 ≤ i → i < m.nBodies → (m.joint i).jt.hasJcalc = true)
+    (P : Nat → Pose (D2 α)) (hP0 : P 0 = Pose.id)
+    (hP : ∀ i, 1 ≤ i → i < m.nBodies →
+      P i = (P (m.lam i)).comp ((framePoseJet m i).comp (jointPoseJet m i st qd qdd))) :
+    ∀ i, 1 ≤ i → i < m.nBodies →
+      (updateKinematics m w st qd qdd).X_base i
+        = ⟨(NodeKin.ofPose (P i)).R.transpose, (NodeKin.ofPose (P i)).p⟩ :=
+  L06.uk_X_base m w st qd qdd htree hjc P hP0 hP
+example := updateKinematics_X_base C04.Ex.m L06.Ex.w L06.Ex.st L06.Ex.qd L06.Ex.qdd C04.Ex.m_tree
+  C04.Ex.m_hasJcalc (bodyPoseJet C04.Ex.m L06.Ex.st L06.Ex.qd L06.Ex.qdd) rfl
+  (bodyPoseJet_recursion C04.Ex.m L06.Ex.st L06.Ex.qd L06.Ex.qdd C04.Ex.m_tree).2
+
+/-! ### 4. velocity / acceleration of a body-fixed point -/
+
+/-- the formula of `CalcPointVelocity6D`: `pX = SpatialTransform(Eᵀ, x)` with `E = Rᵀ` applied to the
+    spatial velocity gives `(ω, d/dt (p + R x))` in base coordinates -/
+theorem point_velocity (h2 : (2 : α) ≠ 0) (k : NodeKin α) (hk : KinOk k) (E : M3 α)
+    (hE : E = k.R.transpose) (x : V3 α) :
+    (⟨E.transpose, x⟩ : XT α).apply (svOfKin k) = ⟨k.omega, k.ptd x⟩ := by
+  subst hE
+  exact L06.point_velocity_bf (L06.kinOk_bodyForm h2 hk) x
+
+/-- the formula of `CalcPointAcceleration6D`: `pX a + (0, ω' × v')` with `(ω', v') = pX v` gives
+    `(ω̇, d²/dt² (p + R x))` -/
+theorem point_acceleration (h2 : (2 : α) ≠ 0) (k : NodeKin α) (hk : KinOk k) (E : M3 α)
+    (hE : E = k.R.transpose) (x : V3 α) :
+    (⟨E.transpose, x⟩ : XT α).apply (saOfKin k)
+        + ⟨V3.zero, ((⟨E.transpose, x⟩ : XT α).apply (svOfKin k)).w.cross
+            ((⟨E.transpose, x⟩ : XT α).apply (svOfKin k)).v⟩
+      = ⟨k.omegaDot, k.ptdd x⟩ := by
+  subst hE
+  exact L06.point_acceleration_bf (L06.kinOk_bodyForm h2 hk) x
+
+/-- `CalcPointVelocity6D` (movable body, `update_kinematics = false`) on a workspace whose
+    `X_base[id]`, `v[id]` describe the pose jet `k`: the result is `Spec.pointVelocity6D`'s
+    `(ω, d/dt (p + R x))` -/
+theorem calcPointVelocity6D_spec (m : ModelS α) (w : WS α) (st : QS α) (qd : VecN α) (id : Nat)
+    (x : V3 α) (h2 : (2 : α) ≠ 0) (hid : ¬ fixedDisc ≤ id) (hid0 : id ≠ 0) (k : NodeKin α)
+    (hk : KinOk k) (hE : (w.X_base id).E = k.R.transpose) (hv : w.v id = svOfKin k) :
+    (calcPointVelocity6D m w st qd id x false).2 = ⟨k.omega, k.ptd x⟩ := by
+  rw [L06.calcPointVelocity6D_eq m w st qd id x hid hid0, hv]
+  exact point_velocity h2 k hk _ hE x
+
+/-- `CalcPointAcceleration6D` likewise: `(ω̇, d²/dt² (p + R x))` -/
+theorem calcPointAcceleration6D_spec (m : ModelS α) (w : WS α) (st : QS α) (qd qdd : VecN α)
+    (id : Nat) (x : V3 α) (h2 : (2 : α) ≠ 0) (hid : ¬ fixedDisc ≤ id) (hid0 : id ≠ 0)
+    (k : NodeKin α) (hk : KinOk k) (hE : (w.X_base id).E = k.R.transpose)
+    (hv : w.v id = svOfKin k) (ha : w.a id = saOfKin k) :
+    (calcPointAcceleration6D m w st qd qdd id x false).2 = ⟨k.omegaDot, k.ptdd x⟩ := by
+  rw [L06.calcPointAcceleration6D_eq m w st qd qdd id x hid hid0, hv, ha]
+  exact point_acceleration h2 k hk _ hE x
+
+example (x : V3 Rat) :=
+  let P := bodyPoseJet C04.Ex.m L06.Ex.st L06.Ex.qd L06.Ex.qdd
+  let hP := (bodyPoseJet_recursion C04.Ex.m L06.Ex.st L06.Ex.qd L06.Ex.qdd C04.Ex.m_tree).2
+  let r := updateKinematics_velocity_acceleration C04.Ex.m L06.Ex.w L06.Ex.st L06.Ex.qd L06.Ex.qdd L06.Ex.two_ne
+    C04.Ex.m_tree C04.Ex.m_hasJcalc C04.Ex.m_frames C04.Ex.m_unit L06.Ex.m_ws L06.Ex.m_w3 P rfl hP 3
+    (by decide) (by decide)
+  let hX := updateKinematics_X_base C04.Ex.m L06.Ex.w L06.Ex.st L06.Ex.qd L06.Ex.qdd C04.Ex.m_tree
+    C04.Ex.m_hasJcalc P rfl hP 3 (by decide) (by decide)
+  And.intro
+    (calcPointVelocity6D_spec C04.Ex.m (updateKinematics C04.Ex.m L06.Ex.w L06.Ex.st L06.Ex.qd L06.Ex.qdd) L06.Ex.st
+      L06.Ex.qd 3 x L06.Ex.two_ne (by decide) (by decide) _ r.2.2 (congrArg XT.E hX) r.1)
+    (calcPointAcceleration6D_spec C04.Ex.m (updateKinematics C04.Ex.m L06.Ex.w L06.Ex.st L06.Ex.qd L06.Ex.qdd) L06.Ex.st
+      L06.Ex.qd L06.Ex.qdd 3 x L06.Ex.two_ne (by decide) (by decide) _ r.2.2 (congrArg XT.E hX) r.1 r.2.1)
+
+/-- end to end: `UpdateKinematics` followed by `CalcPointVelocity6D` / `CalcPointAcceleration6D`
+    (no further update) on a movable body returns `(ω, d/dt (p + R x))` and `(ω̇, d²/dt² (p + R x))` of
+    the world pose jet `P id` — the definitions `Spec.pointVelocity6D` / `Spec.pointAcceleration6D` -/
+theorem point_velocity_acceleration_after_update (m : ModelS α) (w : WS α) (st : QS α)
+    (qd qdd : VecN α) (h2 : (2 : α) ≠ 0)
+    (htree : ∀ i, 1 ≤ i → i < m.nBodies → m.lam i < i)
+    (hjc : ∀ i, 1 ≤ i → i < m.nBodies → (m.joint i).jt.hasJcalc = true)
+    (hframe : ∀ i, 1 ≤ i → i < m.nBodies → (m.XT_ i).E.IsRot)
+    (hunit : ∀ i, 1 ≤ i → i < m.nBodies → m.jointUnit i st)
+    (hws : ∀ i, 1 ≤ i → i < m.nBodies → L06.JointWS m w i)
+    (hw3 : ∀ i, 1 ≤ i → i < m.nBodies → (m.joint i).jt = .spherical →
+      (m.joint i).qIndex + 2 < m.w3 i)
+    (P : Nat → Pose (D2 α)) (hP0 : P 0 = Pose.id)
+    (hP : ∀ i, 1 ≤ i → i < m.nBodies →
+      P i = (P (m.lam i)).comp ((framePoseJet m i).comp (jointPoseJet m i st qd qdd)))
+    (id : Nat) (h1 : 1 ≤ id) (hi : id < m.nBodies) (hid : ¬ fixedDisc ≤ id) (x : V3 α) :
+    (calcPointVelocity6D m (updateKinematics m w st qd qdd) st qd id x false).2
+      = ⟨(NodeKin.ofPose (P id)).omega, (NodeKin.ofPose (P id)).ptd x⟩ ∧
+    (calcPointAcceleration6D m (updateKinematics m w st qd qdd) st qd qdd id x false).2
+      = ⟨(NodeKin.ofPose (P id)).omegaDot, (NodeKin.ofPose (P id)).ptdd x⟩ := by
+  obtain ⟨hv, ha, hk⟩ := updateKinematics_velocity_acceleration m w st qd qdd h2 htree hjc hframe
+    hunit hws hw3 P hP0 hP id h1 hi
+  have hE : ((updateKinematics m w st qd qdd).X_base id).E = (NodeKin.ofPose (P id)).R.transpose :=
+    congrArg XT.E (updateKinematics_X_base m w st qd qdd htree hjc P hP0 hP id h1 hi)
+  exact ⟨calcPointVelocity6D_spec m _ st qd id x h2 hid (by omega) _ hk hE hv,
+    calcPointAcceleration6D_spec m _ st qd qdd id x h2 hid (by omega) _ hk hE hv ha⟩
+/-- a point of body 3 (spherical joint, on the revolute joint 2, on the revoluteZ joint 1) -/
+example (x : V3 Rat) :=
+  point_velocity_acceleration_after_update C04.Ex.m L06.Ex.w L06.Ex.st L06.Ex.qd L06.Ex.qdd L06.Ex.two_ne
+    C04.Ex.m_tree C04.Ex.m_hasJcalc C04.Ex.m_frames C04.Ex.m_unit L06.Ex.m_ws L06.Ex.m_w3
+    (bodyPoseJet C04.Ex.m L06.Ex.st L06.Ex.qd L06.Ex.qdd) rfl
+    (bodyPoseJet_recursion C04.Ex.m L06.Ex.st L06.Ex.qd L06.Ex.qdd C04.Ex.m_tree).2 3 (by decide) (by decide)
+    (by decide) x
+
+/-- instance: the spherical joint jet of `C04.Ex.m` -/
+example (x : V3 Rat) :=
+  point_velocity L06.Ex.two_ne _
+    (joint_motion C04.Ex.m L06.Ex.w 3 L06.Ex.st L06.Ex.qd L06.Ex.qdd L06.Ex.two_ne rfl
+      (C04.Ex.m_unit 3 (by decide) (by decide)) (L06.Ex.m_ws 3 (by decide) (by decide))
+      (L06.Ex.m_w3 3 (by decide) (by decide))).2.2 _ rfl x
+example (x : V3 Rat) :=
+  point_acceleration L06.Ex.two_ne _
+    (joint_motion C04.Ex.m L06.Ex.w 3 L06.Ex.st L06.Ex.qd L06.Ex.qdd L06.Ex.two_ne rfl
+      (C04.Ex.m_unit 3 (by decide) (by decide)) (L06.Ex.m_ws 3 (by decide) (by decide))
+      (L06.Ex.m_w3 3 (by decide) (by decide))).2.2 _ rfl x
+
 end Rbdl.C06
